@@ -38,6 +38,7 @@ import (
 	"fmt"
 	"os"
 	"testing"
+	"time"
 )
 
 type verifCaseT struct {
@@ -127,7 +128,15 @@ func verifParam(name string) int {
 func verifObserve(tag string, s string) {
 	verifRes.Observe = append(verifRes.Observe, verifObsT{tag, hex.EncodeToString([]byte(s))})
 }
-func verifSteps() int               { return 0 }
+// natively the step clock is wall time (about 50 steps per microsecond)
+var verifStart = time.Now()
+
+func verifSteps() int { return int(time.Since(verifStart).Nanoseconds() / 20) }
+
+// verifBudgetFails: the harness must finish; the runner gives up after 5s.
+var verifBudgetMsg string
+
+func verifBudgetFails(msg string) { verifBudgetMsg = msg }
 func verifIsSym(x any) bool         { return false }
 func verifConcretize(x int) int     { return x }
 func verifChoice(id string, n int) int { return int(verifIn(id)) }
@@ -157,8 +166,31 @@ func verifRunOne(c *verifCaseT) (res verifResT) {
 		res.Status, res.Msg = "panic", "unknown harness "+c.Harness
 		return
 	}
+	verifBudgetMsg = ""
+	verifStart = time.Now()
 	h()
 	return
+}
+
+// verifRunGuarded runs one case in its own goroutine so that a harness which
+// armed verifBudgetFails and does not return within 5 seconds is reported (the
+// goroutine is abandoned).
+func verifRunGuarded(c *verifCaseT) verifResT {
+	done := make(chan verifResT, 1)
+	go func() { done <- verifRunOne(c) }()
+	tick := time.NewTicker(100 * time.Millisecond)
+	defer tick.Stop()
+	start := time.Now()
+	for {
+		select {
+		case r := <-done:
+			return r
+		case <-tick.C:
+			if verifBudgetMsg != "" && time.Since(start) > 5*time.Second {
+				return verifResT{Status: "assert", Msg: verifBudgetMsg + " (no return within 5s natively)"}
+			}
+		}
+	}
 }
 
 func TestVerifReplay(t *testing.T) {
@@ -172,7 +204,7 @@ func TestVerifReplay(t *testing.T) {
 	}
 	out := make([]verifResT, len(cases))
 	for i := range cases {
-		out[i] = verifRunOne(&cases[i])
+		out[i] = verifRunGuarded(&cases[i])
 	}
 	enc, _ := json.Marshal(out)
 	if err := os.WriteFile(os.Getenv("VERIF_REPLAY_OUT"), enc, 0o644); err != nil {
